@@ -35,7 +35,7 @@ Proof. eexists; split; [vm_compute; reflexivity | discriminate]. Qed.
 
 Example ex_fork :
   exists s1 s2 s3, k_fork ex1 = (s1, RUnit) /\ k_lseek s1 3 WEnd (-1) = (s2, ROff 2) /\
-                   k_exit s2 = (s3, RUnit).
+                   k_exit s2 = (s3, RChild CExited).
 Proof. do 3 eexists. repeat split; vm_compute; reflexivity. Qed.
 
 Example ex_nested :
@@ -56,8 +56,24 @@ Example ex_roundtrip :
 Proof. do 4 eexists. repeat split; vm_compute; reflexivity. Qed.
 
 Example ex_excl :
-  exists k sz pm, k_stat ex0 p_f = (ex0, RStat k sz pm) /\ flags_ok AWr fl_creat_excl = true.
-Proof. do 3 eexists. split; vm_compute; reflexivity. Qed.
+  exists k sz pm, can_alloc ex0 0 = true /\ k_stat ex0 p_f = (ex0, RStat k sz pm) /\
+                  flags_ok AWr fl_creat_excl = true.
+Proof. do 3 eexists. repeat split; vm_compute; reflexivity. Qed.
+
+(* descriptors 0-2 open and a limit of 4: the pipe gets nothing, and the next
+   open gets descriptor 3 *)
+Definition ex_lim : kstate := fst (k_setrlimit ex0 4).
+Example ex_pipe_emfile :
+  k_pipe ex_lim = (ex_lim, RErr EMFILE) /\ snd (k_open ex_lim p_f ARd fl_none 0) = RFd 3 /\
+  can_alloc (fst (k_open ex_lim p_f ARd fl_none 0)) 0 = false.
+Proof. repeat split; vm_compute; reflexivity. Qed.
+
+(* the parent ignores SIGTERM (2); the child resets it and signals the group *)
+Example ex_group_kill :
+  snd (run ex0 [OSigaction 2 DIgnore; OFork; OSigaction 2 DDefault; OKill TGroup0 2; OGetcwd;
+                OExit; OGetSigaction 2])
+  = [RDisp DDefault; RUnit; RDisp DIgnore; RSkip; RSkip; RChild (CSignaled 2); RDisp DIgnore].
+Proof. vm_compute. reflexivity. Qed.
 
 Example ex_trunc : exists s' fd, k_open ex0 p_f AWr fl_trunc 438 = (s', RFd fd).
 Proof. do 2 eexists. vm_compute. reflexivity. Qed.
